@@ -329,6 +329,16 @@ Proof.
   - intros x y H z. apply Qeq_alt in H. rewrite H. reflexivity.
 Qed.
 
+Lemma xnum_cmp_laws : cmp_laws xnum_cmp.
+Proof.
+  constructor.
+  - intros [|p|] [|q|]; cbn [xnum_cmp CompOpp]; try reflexivity. apply (cl_antisym _ Qcompare_laws).
+  - intros [|p|] [|q|] [|r|]; cbn [xnum_cmp]; intros H1 H2; try discriminate; try reflexivity.
+    eapply (cl_trans_lt _ Qcompare_laws); eassumption.
+  - intros [|p|] [|q|]; cbn [xnum_cmp]; intros H z; try discriminate; destruct z as [|r|]; cbn [xnum_cmp]; try reflexivity.
+    apply (cl_eq_congr _ Qcompare_laws), H.
+Qed.
+
 Lemma bool_cmp_laws : cmp_laws bool_cmp.
 Proof.
   constructor.
@@ -343,15 +353,15 @@ Proof.
   constructor.
   - intros [|a|p|s] [|b|q|t]; cbn [ord_cmp CompOpp]; try reflexivity.
     + apply (cl_antisym _ bool_cmp_laws).
-    + apply (cl_antisym _ Qcompare_laws).
+    + apply (cl_antisym _ xnum_cmp_laws).
     + apply (cl_antisym _ LS).
   - intros [|a|p|s] [|b|q|t] [|d|r|u]; cbn [ord_cmp]; intros H1 H2; try discriminate; try reflexivity.
     + eapply (cl_trans_lt _ bool_cmp_laws); eassumption.
-    + eapply (cl_trans_lt _ Qcompare_laws); eassumption.
+    + eapply (cl_trans_lt _ xnum_cmp_laws); eassumption.
     + eapply (cl_trans_lt _ LS); eassumption.
   - intros [|a|p|s] [|b|q|t]; cbn [ord_cmp]; intros H z; try discriminate; destruct z as [|d|r|u]; cbn [ord_cmp]; try reflexivity.
     + apply (cl_eq_congr _ bool_cmp_laws), H.
-    + apply (cl_eq_congr _ Qcompare_laws), H.
+    + apply (cl_eq_congr _ xnum_cmp_laws), H.
     + apply (cl_eq_congr _ LS), H.
 Qed.
 
@@ -415,7 +425,7 @@ Proof.
   - symmetry. apply Z.compare_gt_iff. lia.
 Qed.
 
-Local Opaque fx_pos two63 two64 parse_int64 parse_float truthy.
+Local Opaque fx_pos two63 two64 parse_int64 parse_float truthy float_of_int.
 
 Lemma int_reads_exact_inv ta :
   int_reads_exact (mk TInt ta) = true ->
@@ -427,42 +437,111 @@ Proof.
   intros H. apply Z.eqb_eq in H. subst. exists z. split; reflexivity.
 Qed.
 
+Lemma int_exact_inv t ta :
+  int_exact (mk t ta) = true ->
+  exists z, parse_int64 ta = Some z /\ float_of_int z = Ok (FFin (z * fx_scale)).
+Proof.
+  unfold int_exact. cbn [s_text].
+  destruct (parse_int64 ta) as [z|]; [|discriminate].
+  destruct (float_of_int z) as [[| |fx]| | |] eqn:E; try discriminate.
+  intros H. apply Z.eqb_eq in H. subst. exists z. split; [reflexivity | exact E].
+Qed.
+
 Lemma bool_sign l r :
   ((if Bool.eqb l r then 0 else if l then 1 else -1) ?= 0) = bool_cmp l r.
 Proof. destruct l, r; reflexivity. Qed.
+
+Lemma sortable_float_int ta z : parse_int64 ta = Some z -> sortable_float (mk TInt ta) = float_of_int z.
+Proof. intros H. unfold sortable_float. cbn [s_tag s_text]. rewrite H. reflexivity. Qed.
+
+(* the float comparison against the extended-number order *)
+Definition xnum_of (f : fval) : xnum :=
+  match f with
+  | FFin fx => XFin (Qmake fx fx_pos)
+  | FInf neg => if neg then XNegInf else XPosInf
+  | FNaN => XPosInf
+  end.
+
+Lemma fcmp_xnum x y : x <> FNaN -> y <> FNaN ->
+  ((if f_eq x y then 0 else if f_lt x y then -1 else 1) ?= 0) = xnum_cmp (xnum_of x) (xnum_of y).
+Proof.
+  intros Hx Hy. destruct x as [|n1|p], y as [|n2|q]; try congruence; cbn [f_eq f_lt xnum_of].
+  - destruct n1, n2; reflexivity.
+  - destruct n1; reflexivity.
+  - destruct n2; reflexivity.
+  - cbn [xnum_cmp]. rewrite fcmp_sign, Qcompare_fx. reflexivity.
+Qed.
+
+(* what [den] says about a number, in terms of what sort reads *)
+Lemma den_float_inv ta v : den (mk TFloat ta) = Some v ->
+  exists f, sortable_float (mk TFloat ta) = Ok f /\ f <> FNaN /\ v = VNum (xnum_of f).
+Proof.
+  unfold den. cbn [s_tag]. destruct (sortable_float (mk TFloat ta)) as [[|n|fx]| | |]; try discriminate; intros H; injection H as <-.
+  - exists (FInf n). split; [reflexivity|]. split; [discriminate|]. destruct n; reflexivity.
+  - exists (FFin fx). split; [reflexivity|]. split; [discriminate | reflexivity].
+Qed.
+
+(* an exactly represented integer z (stored as z * 2^1074) against any stored float q *)
+Lemma Qcompare_int_scaled_gen z q : Qcompare (inject_Z z) (Qmake q fx_pos) = (z * fx_scale ?= q).
+Proof. rewrite Qcompare_int_fx. reflexivity. Qed.
+
+Lemma Qcompare_scaled_int_gen q z : Qcompare (Qmake q fx_pos) (inject_Z z) = (q ?= z * fx_scale).
+Proof. rewrite Qcompare_fx_int. reflexivity. Qed.
+
+Lemma den_int_inv ta v : den (mk TInt ta) = Some v ->
+  exists z, parse_int64 ta = Some z /\ v = VNum (XFin (inject_Z z)).
+Proof.
+  unfold den. cbn [s_tag s_text]. destruct (parse_int64 ta) as [z|]; [|discriminate].
+  intros H. injection H as <-. exists z. split; reflexivity.
+Qed.
+
+Ltac inv_den :=
+  repeat match goal with
+  | H : den (mk TNull _) = Some _ |- _ => injection H as <-
+  | H : den (mk TBool _) = Some _ |- _ => injection H as <-
+  | H : den (mk TStr _) = Some _ |- _ => injection H as <-
+  | H : den (mk TInt _) = Some _ |- _ =>
+      let z := fresh "z" in let P := fresh "P" in apply den_int_inv in H as (z & P & ->)
+  | H : den (mk TFloat _) = Some _ |- _ =>
+      let f := fresh "f" in let P := fresh "P" in let N := fresh "N" in apply den_float_inv in H as (f & P & N & ->)
+  end.
 
 Theorem cmp_agrees a b :
   pair_ok a b = true -> cmp_sign a b = Some (ord_cmp (vden a) (vden b)).
 Proof.
   destruct a as [ta xa], b as [tb xb]. unfold pair_ok.
   intros H. apply andb_true_iff in H as [H H3]. apply andb_true_iff in H as [H1 H2].
-  unfold cmp_sign, cmp, cmp_float_branch, vden in *. unfold den in *. cbn [s_tag s_text] in *.
-  destruct ta, tb; cbn [is_some] in *; try discriminate;
-    repeat match goal with
-    | H : is_some (match ?e with _ => _ end) = true |- _ =>
-        let E := fresh "E" in destruct e eqn:E; cbn [is_some] in H; try discriminate
-    | H : is_some (match ?e with _ => _ end) = true |- _ =>
-        let E := fresh "E" in destruct e eqn:E; cbn [is_some] in H; try discriminate
-    end;
-    cbn [ord_cmp];
-    try reflexivity.
-  all: try (rewrite sign_z_of_cmp).
-  all: try (rewrite bool_sign; reflexivity).
-  - (* null, null *) apply str_eqb_eq in H3. subst. rewrite str_cmp_refl. reflexivity.
+  unfold cmp_sign, cmp, vden. cbn [s_tag s_text] in *.
+  destruct (den (mk ta xa)) as [va|] eqn:Ea; [|discriminate].
+  destruct (den (mk tb xb)) as [vb|] eqn:Eb; [|discriminate].
+  destruct ta, tb; inv_den; cbn [ord_cmp s_text]; try reflexivity;
+    try (rewrite bool_sign; reflexivity);
+    try (unfold text_order; cbn [s_text]; rewrite sign_z_of_cmp, str_cmp_lex; reflexivity).
   - (* int, int *)
-    apply andb_true_iff in H3 as [Ha Hb]. apply Z.leb_le in Ha. apply Z.ltb_lt in Hb.
-    rewrite wrap64_small by lia. rewrite Qcompare_inject, <- Z.compare_sub. reflexivity.
+    match goal with Pa : parse_int64 xa = Some _, Pb : parse_int64 xb = Some _ |- _ =>
+      unfold cmp_numbers; cbn [s_tag s_text]; rewrite Pa, Pb end.
+    rewrite sign_z_of_cmp. cbn [xnum_cmp]. rewrite Qcompare_inject. reflexivity.
   - (* int, float *)
-    apply int_reads_exact_inv in H3 as (z' & Hz & Hf).
-    match goal with E : parse_int64 xa = Some _ |- _ => rewrite E in Hz; injection Hz as <- end.
-    rewrite Hf. cbn [f_eq f_lt]. rewrite fcmp_sign, Qcompare_int_fx. reflexivity.
+    apply int_exact_inv in H3 as (z' & Hz & Hf).
+    match goal with Pa : parse_int64 xa = Some _, Pb : sortable_float (mk TFloat xb) = Ok ?f, Nb : ?f <> FNaN |- _ =>
+      rewrite Pa in Hz; injection Hz as <-;
+      unfold cmp_numbers; cbn [s_tag s_text]; rewrite (sortable_float_int _ _ Pa), Hf, Pb;
+      rewrite (fcmp_xnum (FFin _) f ltac:(discriminate) Nb);
+      destruct f as [|n|q]; [congruence | destruct n; reflexivity |] end.
+    cbn [xnum_of xnum_cmp]. rewrite Qcompare_fx, Qcompare_int_scaled_gen. reflexivity.
   - (* float, int *)
-    apply int_reads_exact_inv in H3 as (z' & Hz & Hf).
-    match goal with E : parse_int64 xb = Some _ |- _ => rewrite E in Hz; injection Hz as <- end.
-    rewrite Hf. cbn [f_eq f_lt]. rewrite fcmp_sign, Qcompare_fx_int. reflexivity.
+    apply int_exact_inv in H3 as (z' & Hz & Hf).
+    match goal with Pb : parse_int64 xb = Some _, Pa : sortable_float (mk TFloat xa) = Ok ?f, Na : ?f <> FNaN |- _ =>
+      rewrite Pb in Hz; injection Hz as <-;
+      unfold cmp_numbers; cbn [s_tag s_text]; rewrite (sortable_float_int _ _ Pb), Hf, Pa;
+      rewrite (fcmp_xnum f (FFin _) Na ltac:(discriminate));
+      destruct f as [|n|q]; [congruence | destruct n; reflexivity |] end.
+    cbn [xnum_of xnum_cmp]. rewrite Qcompare_fx, Qcompare_scaled_int_gen. reflexivity.
   - (* float, float *)
-    cbn [f_eq f_lt]. rewrite fcmp_sign, Qcompare_fx. reflexivity.
-  - (* str, str *) rewrite str_cmp_lex. reflexivity.
+    match goal with Pa : sortable_float (mk TFloat xa) = Ok ?f, Na : ?f <> FNaN,
+                    Pb : sortable_float (mk TFloat xb) = Ok ?g, Nb : ?g <> FNaN |- _ =>
+      unfold cmp_numbers; cbn [s_tag s_text]; rewrite Pa, Pb; rewrite (fcmp_xnum _ _ Na Nb) end.
+    reflexivity.
 Qed.
 
 (* ================================================================== *)
@@ -608,31 +687,59 @@ Proof.
     rewrite andb_false_r. destruct gr; reflexivity.
 Qed.
 
+Lemma f_op_spec (oe gr : bool) (x y : fval) : x <> FNaN -> y <> FNaN ->
+  (if oe && f_eq x y then true else if gr then f_lt y x else f_lt x y) = op_spec oe gr (xnum_cmp (xnum_of x) (xnum_of y)).
+Proof.
+  intros Hx Hy. destruct x as [|n1|p], y as [|n2|q]; try congruence; cbn [f_eq f_lt xnum_of].
+  - destruct n1, n2, oe, gr; reflexivity.
+  - destruct n1, oe, gr; reflexivity.
+  - destruct n2, oe, gr; reflexivity.
+  - cbn [xnum_cmp]. rewrite int_op_spec, Qcompare_fx. reflexivity.
+Qed.
+
+Lemma same_outcome_inv (x y : outcome fval) : same_outcome x y = true -> x = y.
+Proof.
+  destruct x as [[|m|p]| | |], y as [[|n|q]| | |]; cbn [same_outcome]; intros H; try discriminate.
+  - apply Bool.eqb_prop in H. subst. reflexivity.
+  - apply Z.eqb_eq in H. subst. reflexivity.
+Qed.
+
 Theorem ops_agree oe gr a b :
   ops_ok a b = true ->
   compare_scalars oe gr a b = Ok (op_spec oe gr (ord_cmp (vden a) (vden b))).
 Proof.
   destruct a as [ta xa], b as [tb xb]. unfold ops_ok.
-  intros H. apply andb_true_iff in H as [H H3]. apply andb_true_iff in H as [H1 H2].
-  unfold compare_scalars, float_or_err, vden in *. unfold den in *. cbn [s_tag s_text] in *.
-  destruct ta, tb; cbn [is_some] in *; try discriminate;
-    repeat match goal with
-    | H : is_some (match ?e with _ => _ end) = true |- _ =>
-        let E := fresh "E" in destruct e eqn:E; cbn [is_some] in H; try discriminate
-    end;
-    cbn [ord_cmp bind].
+  intros H. apply andb_true_iff in H as [H H3]. apply andb_true_iff in H as [H Hfb].
+  apply andb_true_iff in H as [H Hfa]. apply andb_true_iff in H as [H1 H2].
+  unfold compare_scalars, float_or_err, vden. cbn [s_tag s_text] in *.
+  destruct (den (mk ta xa)) as [va|] eqn:Ea; [|discriminate].
+  destruct (den (mk tb xb)) as [vb|] eqn:Eb; [|discriminate].
+  unfold ops_float_ok in Hfa, Hfb. cbn [s_tag s_text] in Hfa, Hfb.
+  destruct ta, tb; try discriminate; inv_den; cbn [ord_cmp bind].
   - (* null, null *) destruct oe; reflexivity.
-  - (* int, int *) rewrite int_op_spec, Qcompare_inject. reflexivity.
+  - (* int, int *)
+    match goal with Pa : parse_int64 xa = Some _, Pb : parse_int64 xb = Some _ |- _ => rewrite Pa, Pb end.
+    rewrite int_op_spec. cbn [xnum_cmp]. rewrite Qcompare_inject. reflexivity.
   - (* int, float *)
-    apply int_reads_exact_inv in H3 as (z' & Hz & Hf).
-    match goal with E : parse_int64 xa = Some _ |- _ => rewrite E in Hz; injection Hz as <- end.
-    rewrite Hf. cbn [bind f_eq f_lt]. rewrite int_op_spec, Qcompare_int_fx. reflexivity.
+    apply int_reads_exact_inv in H3 as (z' & Hz & Hf). apply same_outcome_inv in Hfb.
+    match goal with Pa : parse_int64 xa = Some _, Pb : sortable_float (mk TFloat xb) = Ok ?f, Nb : ?f <> FNaN |- _ =>
+      rewrite Pa in Hz; injection Hz as <-; rewrite Hf, Hfb, Pb; cbn [bind];
+      rewrite (f_op_spec oe gr (FFin _) f ltac:(discriminate) Nb);
+      destruct f as [|n|q]; [congruence | destruct n; reflexivity |] end.
+    cbn [xnum_of xnum_cmp]. rewrite Qcompare_fx, Qcompare_int_scaled_gen. reflexivity.
   - (* float, int *)
-    apply int_reads_exact_inv in H3 as (z' & Hz & Hf).
-    match goal with E : parse_int64 xb = Some _ |- _ => rewrite E in Hz; injection Hz as <- end.
-    rewrite Hf. cbn [bind f_eq f_lt]. rewrite int_op_spec, Qcompare_fx_int. reflexivity.
+    apply int_reads_exact_inv in H3 as (z' & Hz & Hf). apply same_outcome_inv in Hfa.
+    match goal with Pb : parse_int64 xb = Some _, Pa : sortable_float (mk TFloat xa) = Ok ?f, Na : ?f <> FNaN |- _ =>
+      rewrite Pb in Hz; injection Hz as <-; rewrite Hf, Hfa, Pa; cbn [bind];
+      rewrite (f_op_spec oe gr f (FFin _) Na ltac:(discriminate));
+      destruct f as [|n|q]; [congruence | destruct n; reflexivity |] end.
+    cbn [xnum_of xnum_cmp]. rewrite Qcompare_fx, Qcompare_scaled_int_gen. reflexivity.
   - (* float, float *)
-    cbn [bind f_eq f_lt]. rewrite int_op_spec, Qcompare_fx. reflexivity.
+    apply same_outcome_inv in Hfa, Hfb.
+    match goal with Pa : sortable_float (mk TFloat xa) = Ok ?f, Na : ?f <> FNaN,
+                    Pb : sortable_float (mk TFloat xb) = Ok ?g, Nb : ?g <> FNaN |- _ =>
+      rewrite Hfa, Hfb, Pa, Pb; cbn [bind]; rewrite (f_op_spec oe gr _ _ Na Nb) end.
+    reflexivity.
   - (* str, str *)
     apply negb_true_iff in H3. rewrite H3, str_cmp_lex. reflexivity.
 Qed.
@@ -889,4 +996,13 @@ Proof.
   assert (Hxa : In x (flat_map e_keys l)) by (apply in_flat_map; exists a; split; assumption).
   assert (Hyb : In y (flat_map e_keys l)) by (apply in_flat_map; exists b; split; assumption).
   specialize (H x Hxa). rewrite forallb_forall in H. apply H, Hyb.
+Qed.
+
+(* the repaired comparator has no panic branch left *)
+Theorem cmp_no_panic a b : cmp a b <> Panic.
+Proof.
+  unfold cmp, cmp_numbers. destruct (s_tag a), (s_tag b); try discriminate;
+    repeat match goal with
+    | |- context [match ?e with _ => _ end] => destruct e; try discriminate
+    end.
 Qed.
